@@ -286,6 +286,24 @@ def replay(path):
     return 1 if fails else 0
 
 
+def api_views(run: Run):
+    """What the templates see of the (pruned) API: API.services / API.messages / API.enums hold exactly the keys of the kept files' services /
+    all_messages / all_enums, each value taken from a file that holds the key - so an entry pruned from every file is gone from the API's views,
+    and nothing else is.  (A model of their own: the big traversal model keeps reading these three as plain accessors.)"""
+    m = SchemaModel()
+    m.add_class("Proto", {"services": "Map[Str,Service]", "all_messages": "Map[Str,MessageType]", "all_enums": "Map[Str,EnumType]"})
+    m.classes["API"].update({"protos": "Map[Str,Proto]"})
+    m.globals["collections"] = pyv(("module", "collections"))
+    for attr, pattr, ty in (("services", "services", "Service"), ("messages", "all_messages", "MessageType"), ("enums", "all_enums", "EnumType")):
+        c = Contract(f"API.{attr}", source=("gapic/schema/api.py", f"API.{attr}"), params={"self": "API"}, result=f"Map[Str,{ty}]",
+                     ensures=[f"forall(lambda k: (k in result) == exists(lambda p: k in p.{pattr}, self.protos.values()), str)",
+                              f"forall(lambda k: implies(k in result, exists(lambda p: k in p.{pattr} and result[k] is p.{pattr}[k], self.protos.values())), str)"])
+        m.add_contract(c)
+        run.verify(m, c)
+    run.assume(*m.assumptions)
+    run.assume("collections.ChainMap: a lookup returns the value of the first map holding the key (least-number principle supplied as a fact about the naturals)")
+
+
 def run(run: Run):
     run.witness_check = witness_still_fails
     m = schema_model()
@@ -294,6 +312,7 @@ def run(run: Run):
         m.add_contract(c)
     for c in cs:
         run.verify(m, c)
+    api_views(run)
     # the caller (third pass of API.build) hands the traversal the resources of the *whole* API and starts it from every target proto
     import ast as _ast
     from vf.core import find_def
